@@ -10,6 +10,7 @@ import Bridge.Abs
 import Bridge.ExtAbs
 import PtaProofs.Lemmas.ExtScan
 import PtaProofs.Lemmas.ExtNodup
+import PtaProofs.Lemmas.ExtRepair
 namespace Pta.C10
 open Pta
 
@@ -88,7 +89,8 @@ theorem externals_excluded_nolimit (mt : Str → Str → Bool) (base rootName : 
     external importee.
     * If `i` is retained (no external exclusion pattern matches the importee or one of its parents) then the importee and
       all its dotted parents are nodes, and the import edge importer → importee exists (the importer being internal).
-      [`isInfix base importee = false`: the library skips importees whose name contains the root path string.]
+      [Since the repair of F-C10e (library commit 4ee40c9) no side condition on the root path string `base` is needed:
+      the library no longer skips importees whose name contains `str(root_path)`; see `relative_root_before_repair`.]
     * If `i` is not retained (a pattern matches the importee or one of its parents) then the importee is not a node
       and no edge of any kind touches it — provided it is not itself a parsed module or a parent of one. -/
 theorem externals_included (mt : Str → Str → Bool) (base rootName : Str) (mp : List Str) (entries : List Entry)
@@ -97,7 +99,7 @@ theorem externals_included (mt : Str → Str → Bool) (base rootName : Str) (mp
     (hI : convertAll (scanParsed mt base rootName mp entries o) (absolutePrefix rootName mp)
       ((scanParsed mt base rootName mp entries o).allModules.filter fun m => isInternal m (internalPrefix rootName mp)) = .ok I)
     (i : ImportRec) (hi : i ∈ I) (hext : isInternal i.importee (internalPrefix rootName mp) = false) :
-    (retained mt o (internalPrefix rootName mp) i = true → isInfix base i.importee = false →
+    (retained mt o (internalPrefix rootName mp) i = true →
       (∀ s ∈ withParents i.importee, s ∈ g.nodes) ∧
       (isInternal i.importer (internalPrefix rootName mp) = true → (i.importer, i.importee) ∈ g.importPairs)) ∧
     (retained mt o (internalPrefix rootName mp) i = false →
@@ -114,12 +116,12 @@ theorem externals_included_limit (mt : Str → Str → Bool) (base rootName : St
     (hI : convertAll (scanParsed mt base rootName mp entries o) (absolutePrefix rootName mp)
       ((scanParsed mt base rootName mp entries o).allModules.filter fun m => isInternal m (internalPrefix rootName mp)) = .ok I)
     (i : ImportRec) (hi : i ∈ I) (hext : isInternal i.importee (internalPrefix rootName mp) = false)
-    (hret : retained mt o (internalPrefix rootName mp) i = true) (hinf : isInfix base i.importee = false)
+    (hret : retained mt o (internalPrefix rootName mp) i = true)
     (hr : '.' ∉ rootName) (hmp : ∀ c ∈ mp, '.' ∉ c) :
     (∀ s ∈ withParents (flattenNode (shiftedLimit o mp) i.importee), s ∈ g.nodes) ∧
     (isInternal i.importer (internalPrefix rootName mp) = true →
       (flattenNode (shiftedLimit o mp) i.importer, flattenNode (shiftedLimit o mp) i.importee) ∈ g.importPairs) := by
-  obtain ⟨h1, h2⟩ := Pta.ExtScan.externals_retained_lemma mt base rootName mp entries o g hx h I hI i hi hext hret hinf
+  obtain ⟨h1, h2⟩ := Pta.ExtScan.externals_retained_lemma mt base rootName mp entries o g hx h I hI i hi hext hret
   refine ⟨h1, fun hX => h2 ?_ ?_⟩
   · rw [Pta.ExtScan.isInternal_shifted rootName mp o _ hr hmp]; exact hX
   · rw [Pta.ExtScan.isInternal_shifted rootName mp o _ hr hmp]; exact hext
@@ -176,7 +178,7 @@ example : convertAll (scanParsed mt0 "/r".toList "r".toList [] ents oIn) (absolu
 set_option maxRecDepth 100000 in
 example : let i := absImport "r.a".toList "os.path".toList
     i ∈ conv oIn ∧ isInternal i.importee "r".toList = false ∧ retained mt0 oIn "r".toList i = true ∧
-    isInfix "/r".toList i.importee = false ∧ isInternal i.importer "r".toList = true := by decide
+    isInternal i.importer "r".toList = true := by decide
 set_option maxRecDepth 100000 in
 example : let i := absImport "r.b".toList "numpy.linalg.x".toList
     i ∈ conv oIn ∧ isInternal i.importee "r".toList = false ∧ retained mt0 oIn "r".toList i = false ∧
@@ -190,9 +192,90 @@ example : convertAll (scanParsed mt0 "/r".toList "r".toList [] ents oInL) (absol
 set_option maxRecDepth 100000 in
 example : let i := absImport "r.a".toList "os.path".toList
     oInL.excludeExternal = false ∧ i ∈ conv oInL ∧ isInternal i.importee "r".toList = false ∧
-    retained mt0 oInL "r".toList i = true ∧ isInfix "/r".toList i.importee = false ∧
+    retained mt0 oInL "r".toList i = true ∧
     isInternal i.importer "r".toList = true ∧ '.' ∉ "r".toList ∧ ∀ c ∈ ([] : List Str), '.' ∉ c := by decide
 
 end Ex
+
+/-! ### the repair of F-C10e (library commit 4ee40c9): the root-path substring test is gone
+
+Before the repair `ImporteeModuleCalculator.calculate_importee_modules` skipped every importee whose dotted name
+CONTAINS `str(root_path)`; `moduleListBeforeRepair` (PtaModel/Scan.lean) is that code, `moduleList` the repaired one
+(which `generateGraph` uses; `externals_included`, `externals_included_limit` and the theorems of `C10Limit.lean` carry
+no hypothesis about `base` any more). -/
+namespace RelEx
+
+/-- relative root path `proj` (so `str(root_path) = "proj"`), one file `proj/m.py` with
+    `import projx, proj_ext.m, os.path` -/
+def ents : List Entry := [
+  { rel := ["m.py".toList], isDir := false,
+    stmts := [.imp ["projx".toList, "proj_ext.m".toList, "os.path".toList]] } ]
+def mt0 : Str → Str → Bool := fun _ _ => false
+/-- externals included, no patterns, no limit -/
+def oIn : ScanOptions := { exclusions := .globs [], excludeExternal := false }
+def base : Str := "proj".toList
+def parsed : Parsed := scanParsed mt0 base "proj".toList [] ents oIn
+def conv : List ImportRec :=
+  match convertAll parsed (absolutePrefix "proj".toList [])
+      (parsed.allModules.filter fun m => isInternal m (internalPrefix "proj".toList [])) with
+  | .ok I => I
+  | .error _ => []
+/-- the graph the code before the repair built: the constructor on the OLD module list -/
+def oldGraph : PGraph Str :=
+  buildGraph (moduleListBeforeRepair mt0 base oIn "proj".toList parsed.allModules conv) conv none
+def newGraph : PGraph Str :=
+  match generateGraph mt0 base "proj".toList [] ents oIn with
+  | .ok g => g
+  | .error _ => PGraph.empty
+
+end RelEx
+open RelEx in
+set_option maxRecDepth 100000 in
+/-- F-C10e on a concrete tree: root path given as the relative string `proj`, externals included, `proj.m` imports
+    `projx` (and `proj_ext.m`, `os.path`).  The import records are external and retained; the OLD module list lacks
+    `projx`, `proj_ext.m`, `proj_ext` (their names contain `proj`) but has `os.path`, `os`; the REPAIRED module list has
+    all of them.  At the level of graphs: before the repair `projx` was not a node and the edge `proj.m → projx` was
+    missing; the repaired scan has both. -/
+theorem relative_root_before_repair :
+    oIn.excludeExternal = false ∧
+    convertAll parsed (absolutePrefix "proj".toList [])
+      (parsed.allModules.filter fun m => isInternal m (internalPrefix "proj".toList [])) = .ok conv ∧
+    absImport "proj.m".toList "projx".toList ∈ conv ∧
+    isInternal "projx".toList (internalPrefix "proj".toList []) = false ∧
+    retained mt0 oIn (internalPrefix "proj".toList []) (absImport "proj.m".toList "projx".toList) = true ∧
+    -- the module lists
+    "projx".toList ∉ moduleListBeforeRepair mt0 base oIn "proj".toList parsed.allModules conv ∧
+    "projx".toList ∈ moduleList mt0 base oIn "proj".toList parsed.allModules conv ∧
+    moduleListBeforeRepair mt0 base oIn "proj".toList parsed.allModules conv =
+      ["proj", "proj.m", "os.path", "os"].map String.toList ∧
+    moduleList mt0 base oIn "proj".toList parsed.allModules conv =
+      ["proj", "proj.m", "projx", "proj_ext.m", "proj_ext", "os.path", "os"].map String.toList ∧
+    -- the graphs
+    generateGraph mt0 base "proj".toList [] ents oIn = .ok newGraph ∧
+    "projx".toList ∉ oldGraph.nodes ∧ ("proj.m".toList, "projx".toList) ∉ oldGraph.importPairs ∧
+    "projx".toList ∈ newGraph.nodes ∧ ("proj.m".toList, "projx".toList) ∈ newGraph.importPairs ∧
+    ("proj.m".toList, "proj_ext.m".toList) ∈ newGraph.importPairs ∧ "proj_ext".toList ∈ newGraph.nodes := by
+  refine ⟨by decide, by rfl, by decide, by decide, by decide, by decide, by decide, by decide, by decide, by rfl,
+    by decide, by decide, by decide, by decide, by decide, by decide⟩
+
+/-- For absolute root paths the repair changes nothing: if the root path string contains a `/` and no importee does
+    (dotted module names never do), the old and the repaired code compute the same module list. -/
+theorem moduleList_eq_before_repair_of_absolute (mt : Str → Str → Bool) (base : Str) (o : ScanOptions) (pre : Str)
+    (parsedModules : List Str) (imports : List ImportRec)
+    (hbase : '/' ∈ base) (himp : ∀ i ∈ imports, '/' ∉ i.importee) :
+    moduleListBeforeRepair mt base o pre parsedModules imports = moduleList mt base o pre parsedModules imports :=
+  Pta.ExtRepair.moduleList_eq_before_repair_lemma mt base o pre parsedModules imports
+    (fun i hi _ => Pta.ExtRepair.isInfix_false_of_char '/' base i.importee hbase (himp i hi))
+
+/-- … more generally: whenever the substring test fires on no EXTERNAL importee -/
+theorem moduleList_eq_before_repair_of_no_infix (mt : Str → Str → Bool) (base : Str) (o : ScanOptions) (pre : Str)
+    (parsedModules : List Str) (imports : List ImportRec)
+    (h : ∀ i ∈ imports, isInternal i.importee pre = false → isInfix base i.importee = false) :
+    moduleListBeforeRepair mt base o pre parsedModules imports = moduleList mt base o pre parsedModules imports :=
+  Pta.ExtRepair.moduleList_eq_before_repair_lemma mt base o pre parsedModules imports h
+
+-- hypotheses of `moduleList_eq_before_repair_of_absolute` on the tree `Ex` (root path `/r`)
+set_option maxRecDepth 100000 in
+example : '/' ∈ "/r".toList ∧ ∀ i ∈ Ex.conv Ex.oIn, '/' ∉ i.importee := by decide
 
 end Pta.C10
